@@ -76,7 +76,7 @@ def plan(prop, tier, seed):
 
     two = ['tb2', 'tbshift', 'tbloop', 'hyb2', 'hyb2p', 'hyb2pm', 'ev2', 'evloop', 'tb_ev', 'tb_hy', 'hy_tb',
            'weak2', 'weakonly', 'weaktb', 'tbshift_sym', 'grp_out', 'grp_in', 'grp_sib',
-           'multi_shift', 'multi_shift_rev', 'multi_shift_sym', 'multi_tb']
+           'multi_shift', 'multi_shift_rev', 'multi_shift_sym', 'multi_tb', 'async2', 'async2hy', 'ev2_late', 'selfloop']
     multi = ['multi_shift', 'multi_shift_rev', 'multi_shift_sym', 'multi_tb', 'multi_weak']
     three = ['chain3ev', 'chain3', 'tbchain3', 'fanin', 'fanout', 'loop3shift', 'weak3', 'weak3in', 'nested', 'reenter', 'shortcut3', 'shortcut3_sym',
              'fanin_same', 'fanin_same2']
@@ -91,7 +91,7 @@ def plan(prop, tier, seed):
         add(['hyb2', 'hyb2p', 'ev2', 'evloop', 'tb_ev', 'weak2', 'weakonly', 'grp_out', 'grp_in', 'grp_sib', 'tb2'] + multi,
             K=2 if q else 3, lazies=(True, False))
         add(['multi_shift', 'multi_shift_rev'], K=3, lazies=(True,))
-        add(['ent2hy'], K=2 if q else 3)
+        add(['ent2hy', 'async2hy', 'ev2_late', 'selfloop'], K=2 if q else 3)
         add(['hyb2', 'ev2', 'tb_ev'], K=2 if q else 3, lazies=(True,), extra={'future_outputs': True})
         add(['chain3ev', 'chain3', 'fanin'] if q else three, K=2)
         add(['hyb2', 'ev2', 'tb2'], K=2 if q else 3, until='symnc', caches=(False,))
@@ -103,6 +103,7 @@ def plan(prop, tier, seed):
         add(['multi_shift', 'multi_tb'], K=3, lazies=(True,))
         add(['ent2', 'ent2x', 'ent2hy'], K=2 if q else 3, lazies=(True, False))
         add(['ent2fan'], K=2)
+        add(['async2', 'selfloop', 'ev2_late'], K=2)
         add(['tb2', 'tbshift', 'tbloop'], K=3 if q else 4, until=4 if q else 5, lazies=(True, False))
         add(['tbshift_sym', 'tb2', 'tbshift'], K=3, until='symnc', caches=(False,), lazies=(True, False))
         add(['fanin', 'tbchain3', 'fanin_same'] if q else ['fanin', 'fanout', 'tbchain3', 'fanin_same', 'fanin_same2'], K=2)
@@ -133,6 +134,7 @@ def plan(prop, tier, seed):
         add(['tb2', 'tbshift', 'tbloop', 'tb_hy', 'hy_tb', 'hyb2', 'hyb2p', 'tb_ev', 'ev2', 'evloop', 'weak2', 'grp_out', 'grp_in',
              'grp_sib', 'multi_shift', 'multi_tb'], K=2 if q else 3, lazies=(True,))
         add(['tb2', 'tb_hy', 'hyb2'], K=3, until=4, lazies=(True,))
+        add(['async2', 'async2hy', 'async3', 'selfloop'], K=2, lazies=(True,))
         add(['tbchain3', 'fanout', 'chain3'] if q else three, K=2, lazies=(True,))
         add(['fanin', 'fanin_tb'], K=2, lazies=(True,), masks='all', extra={'no_self': ['C']})
         add(['fanin_tb'], K=3, lazies=(True,), caches=(True,), masks='all', extra={'no_self': ['C']})
@@ -154,6 +156,18 @@ def plan(prop, tier, seed):
         for c in cfgs(t, tier, K=2, masks='all' if not q else 'extremes', lazies=lz):
             c['rules'] = rules
             jobs.append(job(prop, t, c, budget_s=240 if not q else 60))
+    if not q:
+        # generated three-simulator family: a rotating 1/16 per property, transport-mode extremes
+        g3 = T.generated3()
+        off3 = (int(prop[1:]) * 5 + seed) % 16
+        for i, t in enumerate(g3):
+            if i % 16 != off3:
+                continue
+            lz = (True,) if prop == 'C10' else (True, False)
+            for c in cfgs(t, tier, K=2, masks='extremes', lazies=lz):
+                c['rules'] = rules
+                big = not c['sync']
+                jobs.append(job(prop, t, c, budget_s=400, split_depth=22 if big else None))
     # dedupe by id
     seen = set()
     out = []
